@@ -229,9 +229,10 @@ def make_input(rng, kind, n=None):
     else:
         raise ValueError(kind)
     nr = m.shape[0]
+    gd = _gdesc(m, dtype=(rng.choice([None, None, None, 'bool', 'int']) if weights is None or kind in ('blocks', 'disc', 'tiny') else None))
     k = max(2, min(4, nr // 2))
     nodes = rng.sample(range(nr), k)
-    inp = {'kind': kind, 'graph': _gdesc(m),
+    inp = {'kind': kind, 'graph': gd,
            'labels': {str(v): i % 2 for i, v in enumerate(nodes)},
            'values': {str(v): [0.0, 1.0, 0.4, 0.75][i % 4] for i, v in enumerate(nodes)},
            'labels_array': [(-1 if rng.random() < 0.5 else rng.randrange(2)) for _ in range(nr)]}
@@ -247,6 +248,11 @@ KINDS = ['und', 'blocks', 'dir', 'disc', 'bip', 'tiny']
 # ------------------------------------------------------------------------------------------------
 # per-class parameters
 # ------------------------------------------------------------------------------------------------
+def _seed(r):
+    """an explicit seed; 0 is always in the pool (a falsy seed is still a seed)"""
+    return r.choice([0, 0, 1, r.randrange(1000), r.randrange(1000), r.randrange(2 ** 31)])
+
+
 def _ok_est(name):
     """Parameter objects are taken from the classes whose own history obligation holds on this tree (the
     theorem's assumption for user-supplied objects)."""
@@ -263,7 +269,7 @@ def _embedding_choices(r):
 
 def _louvain_like(r):
     return dict(resolution=r.choice([0.5, 1, 1.5]), modularity=r.choice(['dugue', 'newman', 'potts']),
-                shuffle_nodes=r.random() < 0.75, random_state=r.randrange(1000), sort_clusters=r.random() < 0.8,
+                shuffle_nodes=r.random() < 0.75, random_state=_seed(r), sort_clusters=r.random() < 0.8,
                 n_aggregations=r.choice([-1, -1, 1, 2]))
 
 
@@ -283,10 +289,10 @@ SPEC = {
                                   sets={'n_iter': [2, 5], 'weighted': [True, False], 'sort_clusters': [True, False]},
                                   targets=['und', 'blocks', 'bip', 'disc']),
     'LouvainHierarchy': dict(params=lambda r: dict(resolution=r.choice([1, 1.5]), shuffle_nodes=r.random() < 0.7,
-                                                   random_state=r.randrange(1000)),
+                                                   random_state=_seed(r)),
                              sets={}, targets=['blocks', 'und', 'disc']),
     'LouvainIteration': dict(params=lambda r: dict(depth=r.choice([2, 3]), resolution=r.choice([1, 1.5]),
-                                                   shuffle_nodes=r.random() < 0.7, random_state=r.randrange(1000)),
+                                                   shuffle_nodes=r.random() < 0.7, random_state=_seed(r)),
                              sets={'depth': [1, 2, 3]}, targets=['blocks', 'und', 'disc']),
     'Paris': dict(params=lambda r: dict(weights=r.choice(['degree', 'uniform']), reorder=r.random() < 0.7),
                   sets={'reorder': [True, False]}, targets=['und', 'blocks', 'bip']),
@@ -307,11 +313,11 @@ SPEC = {
                      sets={'n_components': [2, 3], 'decomposition': ['rw', 'sym'], 'normalized': [True, False]},
                      targets=['und', 'blocks', 'bip', 'disc']),
     'RandomProjection': dict(params=lambda r: dict(n_components=r.choice([2, 3]), alpha=r.choice([0.3, 0.5]),
-                                                   random_walk=r.random() < 0.5, random_state=r.randrange(1000)),
+                                                   random_walk=r.random() < 0.5, random_state=_seed(r)),
                              sets={'n_components': [2, 3], 'alpha': [0.2, 0.6], 'n_iter': [2, 4]},
                              targets=['und', 'bip', 'dir', 'disc']),
     'LouvainEmbedding': dict(params=lambda r: dict(resolution=r.choice([1, 1.5]), shuffle_nodes=r.random() < 0.75,
-                                                   random_state=r.randrange(1000)),
+                                                   random_state=_seed(r)),
                              sets={'resolution': [1, 2], 'isolated_nodes': ['remove', 'merge']},
                              targets=['blocks', 'und', 'bip']),
     'Betweenness': dict(params=lambda r: dict(normalized=r.random() < 0.5), sets={'normalized': [True, False]},
@@ -331,7 +337,8 @@ SPEC = {
                                                embedding_method=_embedding_choices(r),
                                                normalize=r.random() < 0.6),
                          sets={'n_neighbors': [1, 2], 'normalize': [True, False]}, targets=['und', 'blocks', 'bip']),
-    'PageRankClassifier': dict(params=lambda r: dict(damping_factor=r.choice([0.5, 0.85]), n_iter=r.choice([5, 10])),
+    'PageRankClassifier': dict(params=lambda r: dict(damping_factor=r.choice([0.5, 0.85]), n_iter=r.choice([5, 10]),
+                                                     n_jobs=r.choice([None, None, 2])),
                                sets={}, targets=['und', 'dir']),
     'Propagation': dict(params=lambda r: dict(n_iter=r.choice([3, 5]), node_order=r.choice([None, 'decreasing', 'increasing', 'random']),
                                               weighted=r.random() < 0.5),
@@ -342,10 +349,12 @@ SPEC = {
     'NNLinker': dict(params=lambda r: dict(n_neighbors=r.choice([2, 3]), threshold=r.choice([0, 0.2]),
                                            embedding_method=_embedding_choices(r)),
                      sets={'n_neighbors': [2, 3], 'threshold': [0, 0.3]}, targets=['und', 'blocks', 'bip']),
-    'GNNClassifier': dict(params=lambda r: dict(dims=[r.choice([3, 4]), 2], early_stopping=False,
-                                                optimizer=r.choice(['Adam', 'Adam', 'GD']),
-                                                layer_types=r.choice(['Conv', 'Conv', 'Sage'])),
-                          sets={}, targets=['und', 'blocks']),
+    'GNNClassifier': dict(params=lambda r: r.choice([
+        dict(dims=[r.choice([3, 4]), 2], early_stopping=False, optimizer=r.choice(['Adam', 'Adam', 'GD']), layer_types='Conv'),
+        # neighbour sampling must be controlled by random_state too: sample sizes below the degrees of the inputs
+        dict(dims=[r.choice([3, 4]), 2], early_stopping=False, optimizer=r.choice(['Adam', 'GD']), layer_types='Sage',
+             sample_sizes=r.choice([[3, 2], [2, 2], 2, [1, 3]]))]),
+                          sets={}, targets=['und', 'blocks', 'blocks']),
     'LanczosEig': dict(params=lambda r: dict(which=r.choice(['LM', 'SM', 'LA'])), sets={'which': ['LM', 'LA']},
                        targets=['und', 'blocks', 'bip']),
     'LanczosSVD': dict(params=lambda r: dict(), sets={}, targets=['und', 'bip', 'dir']),
@@ -354,7 +363,7 @@ SPEC = {
 
 def _fit_kw(name, rng):
     if name == 'GNNClassifier':
-        return {'n_epochs': rng.choice([2, 4]), 'reinit': True, 'random_state': rng.randrange(1000),
+        return {'n_epochs': rng.choice([2, 4]), 'reinit': True, 'random_state': _seed(rng),
                 'validation': rng.choice([0, 0, 0, 0.3])}
     if name in ('Louvain', 'Leiden', 'KCenters', 'Spectral', 'RandomProjection', 'LouvainEmbedding') and rng.random() < 0.15:
         return {'force_bipartite': True}
@@ -591,8 +600,9 @@ def uses_svds(job):
 
 
 SPECTRAL_ATTRS = {'singular_values_', 'singular_vectors_left_', 'singular_vectors_right_', 'embedding_', 'embedding_row_',
-                  'embedding_col_', 'scores_', 'scores_row_', 'scores_col_'}
-NN_DERIVED_ATTRS = {'labels_', 'labels_row_', 'labels_col_', 'probs_', 'probs_row_', 'probs_col_', 'links_'}
+                  'embedding_col_', 'scores_', 'scores_row_', 'scores_col_', '<transform()>', '<predict()>'}
+NN_DERIVED_ATTRS = {'labels_', 'labels_row_', 'labels_col_', 'probs_', 'probs_row_', 'probs_col_', 'links_',
+                    '<predict()>', '<transform()>', '<predict_proba()>'}
 DEGENERATE = 1e-7       # two singular values closer than this (relative) form one cluster; below it a value vanishes
 SUBSPACE = 1e-8         # projectors onto a complete singular subspace must agree within this
 
@@ -840,7 +850,7 @@ def crs_cases(ctx):
     from sknetwork.utils.check import check_random_state
     rs = np.random.RandomState(11)
     args = [('none', None), ('int:0', 0), ('int:5', 5), ('int:%d' % (2 ** 32 - 1), 2 ** 32 - 1), ('int:%d' % 2 ** 32, 2 ** 32),
-            ('int:-1', -1), ('int:%d' % ctx.rng.randrange(2 ** 31), None), ('other', np.int64(3)), ('other', True),
+            ('int:-1', -1), ('int:%d' % ctx.rng.randrange(2 ** 31), None), ('other', np.int64(3)), ('bool:1', True), ('bool:0', False),
             ('other', 3.0), ('other', 'junk'), ('other', np.random.default_rng(0)), ('inst', rs), ('other', [1]),
             ('other', np.random)]
     out = []
@@ -857,8 +867,8 @@ def crs_cases(ctx):
             elif r is val:
                 impl = 'same ' + g_un
             elif isinstance(r, np.random.RandomState):
-                if tok.startswith('int:'):
-                    ref = np.random.RandomState(val).get_state()
+                if tok.startswith('int:') or tok.startswith('bool:'):
+                    ref = np.random.RandomState(int(val)).get_state()
                     st = r.get_state()
                     impl = ('new-seeded ' if (st[1] == ref[1]).all() and st[2] == ref[2] else 'new-other ') + g_un
                 else:
@@ -870,7 +880,7 @@ def crs_cases(ctx):
         except (TypeError, ValueError) as e:
             impl = 'err ' + type(e).__name__
         out.append(Case(('crs', tok, repr(type(val))), {'entry': 'check_random_state', 'arg': tok.split(':')[0]},
-                        'c16.crs ' + tok, impl, None, tok.startswith('int:') or tok == 'inst',
+                        'c16.crs ' + tok, impl, None, tok.startswith('int:') or tok == 'inst' or tok.startswith('bool:'),
                         {'f': 'check_random_state', 'arg': tok, 'type': type(val).__name__}))
     return out
 
@@ -932,10 +942,13 @@ PUBLIC_FUNCTIONS = [
 def function_jobs(rng):
     """Public functions without randomness: called twice in process and in every fresh interpreter."""
     jobs = []
-    for kind in ('und', 'blocks'):
+    for kind in ('und', 'blocks', 'dir', 'bip'):
         inp = make_input(rng, kind, n=rng.randint(8, 14))
         for fn, kw, lab in PUBLIC_FUNCTIONS:
             if fn == 'hierarchy:cut_straight':
+                continue
+            if kind in ('dir', 'bip') and (lab or fn.split(':')[0] in ('hierarchy',) or
+                                           (kind == 'bip' and fn.split(':')[0] in ('topology', 'path', 'clustering'))):
                 continue
             j = {'kind': 'fn', 'fn': fn, 'graph': inp['graph'], 'kw': kw}
             if lab:
@@ -957,6 +970,9 @@ def run_workers(ctx, jobs, thread_counts, repeats=1, timeout=240):
         t, r = tr
         env = dict(os.environ)
         env['OMP_NUM_THREADS'] = str(t)
+        if t == max(thread_counts) or r % 2 == 1:
+            env['OMP_DYNAMIC'] = 'true'             # the runtime may use fewer threads
+            env['OMP_SCHEDULE'] = 'dynamic,1'        # (for schedule(runtime) loops)
         env.pop('PYTHONPATH', None)
         try:
             p = subprocess.run(['/venv/bin/python', script, root], input=payload, env=env, stdout=subprocess.PIPE,
@@ -986,12 +1002,18 @@ def kernel_jobs(rng, big=False):
         jobs.append({'kind': 'fn', 'fn': 'get_clustering_coefficient', 'graph': g, 'kw': {'parallelize': True}, 'loop': 'topology/triangles.pyx'})
         jobs.append({'kind': 'fn', 'fn': 'get_pagerank', 'graph': g, 'kw': {'solver': 'diteration', 'n_iter': 6, 'damping_factor': 0.85}, 'loop': 'linalg/diteration.pyx'})
         jobs.append({'kind': 'fn', 'fn': 'get_pagerank', 'graph': g, 'kw': {'solver': 'push', 'damping_factor': 0.85, 'tol': 1e-3}, 'loop': 'linalg/push.pyx'})
+        if n == 40:
+            # the racy kernel through the estimator class as well
+            jobs.append({'kind': 'est', 'cls': 'PageRank', 'params': {'solver': 'push', 'damping_factor': 0.85, 'tol': 1e-3},
+                         'history': [], 'target': {'kind': 'und', 'graph': g, 'kw': {}}, 'np_seed': 1, 'loop': 'linalg/push.pyx'})
     return jobs
 
 
 def _unsafe(job):
     """Jobs that run a kernel with a recorded race (a crash of the interpreter is a possible outcome): they get their
     own interpreters, so that a crash is attributed to them."""
+    if job.get('kind') == 'est':
+        return (job.get('params') or {}).get('solver') == 'push'
     return job.get('kind') == 'fn' and (job.get('kw') or {}).get('solver') == 'push'
 
 
@@ -1064,7 +1086,10 @@ def cython_clauses(pyx_path, pxd_dir):
     import re
     import shutil
     src = open(pyx_path, 'rb').read()
-    h = hashlib.sha256(src).hexdigest()[:16]
+    import Cython
+    pxd = b''.join(open(os.path.join(os.path.dirname(pyx_path), f), 'rb').read()
+                   for f in sorted(os.listdir(os.path.dirname(pyx_path))) if f.endswith('.pxd'))
+    h = hashlib.sha256(src + b'\0' + pxd + b'\0' + Cython.__version__.encode()).hexdigest()[:16]
     d = os.path.join(core.CACHE, 'c16_cython')
     os.makedirs(d, exist_ok=True)
     out = os.path.join(d, os.path.basename(pyx_path)[:-4] + '.' + h + '.json')
@@ -1278,10 +1303,12 @@ def _class_lists(ctx):
     unknown = sorted(n for n in dyn if n not in SPEC and n not in SKIP_CLASSES)
     ctx.extra['classes_without_static_description'] = sorted(n for n in dyn if n not in static and n not in SKIP_CLASSES)
     if missing:
-        ctx.broken('coverage:static', {'classes': missing}, {'obligation': 'coverage', 'classes': ','.join(missing)})
-    if unknown:
-        ctx.broken('coverage:harness', {'classes': unknown, 'note': 'estimator class without a parameter table in tools/harness/c16.py'},
-                   {'obligation': 'coverage-harness', 'classes': ','.join(unknown)})
+        # the translator cannot describe a class of the package: the tool is incomplete, not the property violated
+        raise core.ToolFailure('estimator classes without static description: %s' % ', '.join(missing))
+    for n in unknown:
+        # a class the harness has no parameter table for (a harmless addition to the library): default parameters
+        SPEC[n] = dict(params=lambda r: {}, sets={}, targets=['und', 'blocks', 'bip'])
+        ctx.note('estimator class %s has no parameter table in tools/harness/c16.py: driven with default parameters' % n)
     return [n for n in sorted(dyn) if n in SPEC], static
 
 
@@ -1320,6 +1347,7 @@ def run(ctx):
     # generated histories
     per_class = 16 if quick else 300
     sweep_jobs, sweep_inproc = [], {}
+    hist_in_sweep = set()
     for name in names:
         k = per_class if name not in SLOW_CLASSES else max(4, per_class // SLOW_CLASSES[name])
         for i in range(k):
@@ -1332,6 +1360,11 @@ def run(ctx):
             if i == 0:
                 sweep_inproc[len(sweep_jobs)] = fresh
                 sweep_jobs.append(fj)
+            elif job['history'] and name not in hist_in_sweep and not _unsafe(job):
+                # one job *with* a history per class also runs in the fresh interpreters / other thread counts
+                hist_in_sweep.add(name)
+                sweep_inproc[len(sweep_jobs)] = W.run_history(job)[0]
+                sweep_jobs.append(job)
     # seeded graph models and deterministic public functions: twice in process
     mj = model_jobs(rng) + function_jobs(rng)
     for j in mj:
@@ -1377,6 +1410,8 @@ def report_sweep(ctx, bad):
             sig['loop_file'] = job['loop']
         if job['kind'] == 'fn' and 'solver' in job.get('kw', {}):
             sig['solver'] = job['kw']['solver']
+        if job['kind'] == 'est' and 'solver' in (job.get('params') or {}) and isinstance(job['params']['solver'], str):
+            sig['solver'] = job['params']['solver']
         if detail.get('svds_restart'):
             sig['svds_restart'] = True
         ctx.spec_fail(sig, {'job': job, 'check': kind}, detail)
